@@ -25,6 +25,7 @@ from fractions import Fraction
 import common
 
 GEN_DEPS = ("gen_cellsize",)
+EXTRA_PROPS = ("C15float",)
 ASSUMPTIONS = [
     "a terminal fits an image into its cell box by the largest scale factor that keeps the aspect ratio (coq/Spec/SizingSpec.v is_fit)",
     "image width/height are positive ints (Image.size), cell sizes positive ints, scale factors positive floats; local scale 0.0 / None means 'not given'",
@@ -136,6 +137,30 @@ def gen_case(rng):
     return c
 
 
+def gen_integer_ratio(rng):
+    """F-C15b class: one explicit dimension, an image/cell geometry for which the derived dimension is an EXACT integer,
+    and scale factors that are not binary fractions (0.1, 0.3, 0.7 ...): float rounding of size*scale must not push the
+    quotient over the integer.  No limit in the way in most cases, sometimes a limit exactly at the derived value."""
+    cw, ch = rng.choice(CELLS)
+    k = rng.choice([1, 2, 3, 4, 5, 8, 10, 16, 25, 32, 64, 100, 128, 200, 256])
+    sq = rng.choice([8, 30, 100, 256, 333, 1000])
+    # image aspect such that cols = rows * ch * w / (h * cw) is an integer: w/h = m * cw / ch
+    m = rng.choice([1, 1, 2, 3])
+    w, h = sq * m * cw, sq * ch
+    c = base_case(w=w, h=h, ccell=[cw, ch], gscale=rng.choice([1.0, 0.1, 0.3, 0.7]), cscale=rng.choice([0.1, 0.3, 0.7, 0.01, 1.0]),
+                  scale=rng.choice([None, None, 0.1, 0.3, 0.7]))
+    if rng.random() < 0.5:
+        c["rows"] = min(k, 256)
+        derived = c["rows"] * m
+        c["amr"] = 256
+        c["amc"] = rng.choice([100000, 100000, derived, derived + 1, max(1, derived - 1)])
+    else:
+        c["cols"] = k * m
+        c["amc"] = 100000
+        c["amr"] = rng.choice([256, 256, min(256, k), min(256, k + 1)])
+    return c
+
+
 def base_case(**kw):
     c = {"w": 100, "h": 100, "cols": None, "rows": None, "amc": None, "amr": None, "scale": None, "ccell": None, "dcell": [8, 16],
          "cscale": 1.0, "gscale": 1.0, "cmc": None, "cmr": None, "term": {"kind": "W", "lines": 24, "cols": 80, "xpx": 640, "ypx": 384}, "via": "direct"}
@@ -153,6 +178,11 @@ CORPUS = [
     base_case(scale=0.0, cscale=0.3, gscale=0.1, w=1000, h=333),
     base_case(via="build", w=17, h=9, rows=2),
     base_case(via="upload", w=100, h=33, rows=3, amr=2), base_case(via="upload", w=16, h=17, scale=20.0),
+    # F-C15b: derived dimension an exact integer, inexact scale factors (float rounding of size*scale)
+    base_case(w=256, h=256, ccell=[8, 16], cscale=0.1, rows=3),
+    base_case(w=8, h=8, ccell=[1, 1], cscale=0.1, gscale=0.1, scale=0.0, rows=255, amc=255, amr=256, cmc=24,
+              dcell=[10, 20], term={"kind": "W", "lines": 60, "cols": 200, "xpx": 1800, "ypx": 0}),
+    base_case(w=256, h=256, ccell=[9, 18], cscale=0.1, cols=14),
 ]
 
 
@@ -554,7 +584,7 @@ def run(ctx, model):
                           "terminal window size); non-trivial = an answer was computed (not both explicit, no exception); distinct by hash of the case")
     common.scrub_process_env()
     n = ctx.pick(10000, 300000)
-    cases = [dict(c) for c in CORPUS] + [gen_case(ctx.rng) for _ in range(n)]
+    cases = [dict(c) for c in CORPUS] + [gen_case(ctx.rng) for _ in range(n)] + [gen_integer_ratio(ctx.rng) for _ in range(max(60, n // 10))]
     from collections import Counter
     stats = Counter()
     evaluate(ctx, model, cases, cov, stats)
